@@ -21,8 +21,10 @@ RULE = ("two-atom sequences (2-site TDVP is exact, so the only approximation is 
         "below zero the un-normalised trajectory equals the dense exp(-i H_eff t) psi0 at the end, and its squared norm "
         "the no-jump probability; (5) deterministic: with random.choices intercepted, the jump weights offered are "
         "<psi|L^dagger L|psi> per (atom, operator) and the state after a generated jump is L psi/|L psi| on that atom; "
-        "(6) deterministic, two-level: the emulator's jump operators (one to three effective operators, each with its own "
-        "rate) generate the same single-atom dissipator superoperator as Pulser's collapse operators.  non-trivial = >=10% of the trajectories jump and >=10% do not; distinct = case hash")
+        "(6) deterministic: the emulator's jump operators (one to three effective operators, each with its own rate) generate "
+        "the same single-atom dissipator superoperator as Pulser's collapse operators; where the difference is exactly C24's "
+        "known finding (three-level effective operators) the case continues with the emulator's operators as the master "
+        "equation and is counted under the label excluded:C24_....  non-trivial = >=10% of the trajectories jump and >=10% do not; distinct = case hash")
 ASSUMPTIONS = ["the Lindblad reference is the harness' dense integrator from Pulser's lindblad_data (pulser-simulation absent)",
                "statistical clauses: distribution-free Chernoff bound per (atom,time) and an exact binomial test (low power at M=120: the "
                "deterministic clauses (4) and (5) carry the quick tier); runs are "
@@ -31,7 +33,7 @@ ASSUMPTIONS = ["the Lindblad reference is the harness' dense integrator from Pul
 
 
 def budget(tier):
-    return {"cases": 16 if tier == "quick" else 320, "shards": 16, "wall": 900 if tier == "quick" else 3300}
+    return {"cases": 96 if tier == "quick" else 320, "shards": 16, "wall": 900 if tier == "quick" else 3300}
 
 
 def _c():
@@ -67,9 +69,13 @@ def _cases(draw, M=300):
     if leak:
         nm["with_leakage"] = True
     T = draw(st.sampled_from([40, 60]))
+    # the register-order optimiser runs once per trajectory (~1.2 s each, 100 bandwidth samplings): mostly off here, and
+    # with fewer trajectories when on
+    reorder = draw(st.integers(0, 7)) == 0
     return {"basis": basis, "nm": nm, "T": T, "dt": draw(st.sampled_from([10, 20])), "amp": draw(st.sampled_from([4.0, 8.0, 12.0])),
             "det": draw(st.sampled_from([0.0, 3.0, -5.0])), "phase": draw(st.sampled_from([0.0, 1.0])), "U": draw(st.sampled_from([0.0, 3.0, -6.0, 10.0])),
-            "local": draw(st.booleans()) and basis == "rydberg", "M": M, "seed": draw(st.integers(0, 2**20))}
+            "local": draw(st.booleans()) and basis == "rydberg", "M": 40 if reorder else M, "seed": draw(st.integers(0, 2**20)),
+            "reorder": reorder}
 
 
 def strategy(tier):
@@ -109,7 +115,8 @@ def check_case(case) -> Result:
     U = np.array([[0.0, case["U"]], [case["U"], 0.0]])
     Ucfg = np.stack([U, 0 * U]) if case["basis"] == "XY" else U
     prec = 1e-7
-    kw = dict(dt=case["dt"], observables=[pb.Occupation(evaluation_times=ev)], noise_model=nm, interaction_matrix=Ucfg, precision=prec)
+    kw = dict(dt=case["dt"], observables=[pb.Occupation(evaluation_times=ev)], noise_model=nm, interaction_matrix=Ucfg, precision=prec,
+              optimize_qubit_ordering=bool(case.get("reorder", True)))
     with warnings.catch_warnings():
         warnings.simplefilter("ignore")
         cfg = e2e.mps_config(n_trajectories=M, **kw)
@@ -129,21 +136,39 @@ def check_case(case) -> Result:
     collapse = dense.pulser_collapse_ops(hd.lindblad_data, eb)
     kind = "rydberg" if case["basis"] == "rydberg" else "XY"
     qids = list(seq.register.qubit_ids)
+    e2e.seed_all(case["seed"])
+    sd0 = next(iter(PulserData(sequence=seq, config=cfg1, dt=cfg1.dt).get_sequences()))
+    collapse_emu = [op.numpy() for op in sd0.lindblad_ops]
+    # (6) deterministic and independent of the unravelling: the emulator's jump operators must generate the same
+    # single-atom dissipator as Pulser's collapse operators
+    De, Dp = dense.dissipator_super(collapse_emu, d), dense.dissipator_super(collapse, d)
+    if np.abs(De - Dp).max() > 1e-9 * max(1.0, np.abs(Dp).max()):
+        explained = False
+        if d == 3 and kind == "rydberg" and "eff_noise_opers" in case["nm"]:
+            # C24's known finding (three-level effective operators: only the top-left 2x2 block is re-indexed from
+            # Pulser's (r, g, x) order).  Is the difference exactly that?  Then the search continues with the
+            # emulator's own operators as the master equation, and the exclusion is counted.
+            P = dense.basis_perm(eb, dense.emu_order_for(eb))
+            good, bug = [], []
+            for m, rate in zip(nm.eff_noise_opers, nm.eff_noise_rates):
+                Mx = np.asarray(m, dtype=complex) * np.sqrt(float(rate))
+                good.append(P @ Mx @ P.T)
+                B = Mx.copy()
+                B[:2, :2] = B[:2, :2][::-1, ::-1]
+                bug.append(B)
+            lhs = De - dense.dissipator_super(bug, d)
+            rhs = Dp - dense.dissipator_super(good, d)
+            explained = np.abs(lhs - rhs).max() <= 1e-9 * max(1.0, np.abs(Dp).max())
+        if not explained:
+            r.fail("jump_operators_generate_another_master_equation" + (":dim3" if d == 3 else ""),
+                   f"max |D_emu - D_pulser| = {np.abs(De - Dp).max():.3e} (scale {np.abs(Dp).max():.3g}); noise {case['nm']}, basis {case['basis']}")
+            return r
+        r.label("excluded:C24_known_three_level_eff_operators(reference_uses_emulator_operators)")
+        collapse = collapse_emu
     ref = dense.Reference(kind, qids, loc, lambda t: U, grid, d=d, collapse=collapse).run()
     # no-jump (effective Hamiltonian) reference.  The no-jump probability depends on the unravelling (L -> L + c*1 leaves
     # the master equation unchanged but not sum L^dagger L), so it is built from the jump operators the emulator itself
     # uses (that they represent Pulser's channels is C24's business); the Lindblad means below use Pulser's operators.
-    e2e.seed_all(case["seed"])
-    sd0 = next(iter(PulserData(sequence=seq, config=cfg1, dt=cfg1.dt).get_sequences()))
-    collapse_emu = [op.numpy() for op in sd0.lindblad_ops]
-    if d == 2:
-        # deterministic and independent of the unravelling: the emulator's jump operators must generate the same
-        # single-atom dissipator as Pulser's collapse operators (three-level effective operators: C24's known finding)
-        De, Dp = dense.dissipator_super(collapse_emu, d), dense.dissipator_super(collapse, d)
-        if np.abs(De - Dp).max() > 1e-9 * max(1.0, np.abs(Dp).max()):
-            r.fail("jump_operators_generate_another_master_equation",
-                   f"max |D_emu - D_pulser| = {np.abs(De - Dp).max():.3e} (scale {np.abs(Dp).max():.3g}); noise {case['nm']}, basis {case['basis']}")
-            return r
     extra = -0.5j * sum(L.conj().T @ L for L in collapse_emu)
     refnj = dense.Reference(kind, qids, loc, lambda t: U, grid, d=d, h_extra=extra).run()
     psi_nj = refnj.states[len(grid) - 1]
